@@ -14,7 +14,10 @@ package main
 //                  buffer space is delivered in pieces), followed by the unread rest of the script
 //
 //   sink <opts> <wscript> <value> <value> ...
-//      opts   : letters n (NoEncoderNewline), i (SetIndent("", " ")), - for none
+//      opts   : letters n (NoEncoderNewline), i (SetIndent("", " ")), h (EscapeHTML), v (ValidateString),
+//               u (do NOT sort map keys), C (sonic.Config{...}.Froze().NewEncoder instead of
+//               encoder.NewStreamEncoder + setters), - for none
+//      value  : see sinkValue
 //      wscript: comma separated Write results by call index: ok | p<k> (accept k bytes, nil error)
 //               | f<k> (accept k bytes, return the writer's error); - = empty; after the script: ok
 //      value  : hex of a JSON text (decoded with encoding/json+UseNumber, then Encode()d)
@@ -237,6 +240,41 @@ func classifyWriteErr(err error) string {
 	}
 }
 
+// sinkValue: <hex> = JSON text (decoded with encoding/json + UseNumber); S<hex> = a Go string with exactly
+// these bytes (ill-formed UTF-8 allowed); L<hex>.<hex>... = []interface{} of such strings;
+// M<hex>=<hex> = map[string]interface{} with one such pair
+func sinkValue(f string) (interface{}, bool) {
+	raw := func(h string) string {
+		if h == "" {
+			return ""
+		}
+		return string(unhexArg(h))
+	}
+	switch {
+	case strings.HasPrefix(f, "S"):
+		return raw(f[1:]), true
+	case strings.HasPrefix(f, "L"):
+		l := []interface{}{}
+		for _, x := range strings.Split(f[1:], ".") {
+			l = append(l, raw(x))
+		}
+		return l, true
+	case strings.HasPrefix(f, "M"):
+		kv := strings.SplitN(f[1:], "=", 2)
+		if len(kv) != 2 {
+			return nil, false
+		}
+		return map[string]interface{}{raw(kv[0]): raw(kv[1])}, true
+	}
+	dec := json.NewDecoder(bytes.NewReader(unhexArg(f)))
+	dec.UseNumber()
+	var v interface{}
+	if err := dec.Decode(&v); err != nil {
+		return nil, false
+	}
+	return v, true
+}
+
 func init() {
 	registerOp("stream", func(a []string) string {
 		if len(a) < 2 {
@@ -270,40 +308,67 @@ func init() {
 		}
 		noNL := strings.Contains(a[0], "n")
 		indent := strings.Contains(a[0], "i")
+		escHTML := strings.Contains(a[0], "h")
+		valStr := strings.Contains(a[0], "v")
+		sortKeys := !strings.Contains(a[0], "u")
+		viaConfig := strings.Contains(a[0], "C")
 		var script []string
 		if a[1] != "-" {
 			script = strings.Split(a[1], ",")
 		}
 		var vals []interface{}
 		for _, h := range a[2:] {
-			dec := json.NewDecoder(bytes.NewReader(unhexArg(h)))
-			dec.UseNumber()
-			var v interface{}
-			if err := dec.Decode(&v); err != nil {
+			v, ok := sinkValue(h)
+			if !ok {
 				return "sonic=unsupported"
 			}
 			vals = append(vals, v)
 		}
-		opts := encoder.SortMapKeys
-		w := &scriptWriter{script: script}
-		enc := encoder.NewStreamEncoder(w)
-		enc.Opts = opts
-		if noNL {
-			enc.SetNoEncoderNewline(true)
+		opts := encoder.Options(0)
+		if sortKeys {
+			opts |= encoder.SortMapKeys
 		}
-		if indent {
-			enc.SetIndent("", " ")
+		if escHTML {
+			opts |= encoder.EscapeHTML
+		}
+		if valStr {
+			opts |= encoder.ValidateString
+		}
+		w := &scriptWriter{script: script}
+		// the stream encoder under test, and the same configuration's Marshal
+		var enc interface{ Encode(interface{}) error }
+		var marshal func(interface{}) ([]byte, error)
+		if viaConfig {
+			api := sonic.Config{EscapeHTML: escHTML, SortMapKeys: sortKeys, ValidateString: valStr, NoEncoderNewline: noNL}.Froze()
+			e := api.NewEncoder(w)
+			if indent {
+				e.SetIndent("", " ")
+			}
+			enc, marshal = e, api.Marshal
+		} else {
+			e := encoder.NewStreamEncoder(w)
+			if sortKeys {
+				e.SortKeys()
+			}
+			e.SetEscapeHTML(escHTML)
+			e.SetValidateString(valStr)
+			e.SetNoEncoderNewline(noNL)
+			if indent {
+				e.SetIndent("", " ")
+			}
+			enc, marshal = e, func(v interface{}) ([]byte, error) { return encoder.Encode(v, opts) }
 		}
 		errs := []string{}
 		marsh := []string{}
 		toks := []string{}
 		for _, v := range vals {
-			var m []byte
-			var merr error
-			if indent {
-				m, merr = encoder.EncodeIndented(v, "", " ", opts)
-			} else {
-				m, merr = encoder.Encode(v, opts)
+			m, merr := marshal(v)
+			if merr == nil && indent {
+				// "Marshal's bytes", indented as the Encoder was told to
+				var ib bytes.Buffer
+				if merr = json.Indent(&ib, m, "", " "); merr == nil {
+					m = ib.Bytes()
+				}
 			}
 			if merr != nil {
 				return "sonic=unsupported"
